@@ -178,8 +178,10 @@ class Ctx:
             "violations": len(new),
             "known_findings_hit": len(knownhits),
         }
-        os.makedirs(os.path.join(VERIF, "evidence"), exist_ok=True)
-        with open(os.path.join(VERIF, "evidence", self.pid + ".json"), "w") as fh:
+        # runs against a scratch copy (mutation audit) must not overwrite the evidence of /repo
+        evdir = os.path.join(VERIF, "evidence") if os.path.realpath(self.repo) == "/repo" else os.path.join(VERIF, "build", "evidence_alt")
+        os.makedirs(evdir, exist_ok=True)
+        with open(os.path.join(evdir, self.pid + ".json"), "w") as fh:
             json.dump(ev, fh, indent=1, sort_keys=True, default=str)
             fh.write("\n")
         seen = set()
